@@ -1154,4 +1154,244 @@ Proof.
            ++ right. exists q, pq. split; assumption.
 Qed.
 
+(* ================================================================== read_fasta: decoys, unique / shared *)
+Section Fasta.
+Variable is_decoy : P -> bool.
+Variable decoy_of : P -> P.
+
+Lemma pair_set_fresh : forall k v d, ~ In k (map fst d) ->
+  gr_pair_set P peqb k v d = d ++ [(k, v)].
+Proof.
+  intros k v d. induction d as [|[k' w] r IH]; simpl; intros H; [reflexivity|].
+  destruct (peqb_spec k k') as [E|E].
+  - exfalso. apply H. left. congruence.
+  - f_equal. apply IH. intros H2. apply H. right. assumption.
+Qed.
+
+Lemma has_prot_spec : forall p d, gr_has_prot P peqb p d = true <-> In p (map fst d).
+Proof.
+  intros p d. unfold gr_has_prot. rewrite existsb_exists. split.
+  - intros [[k v] [Hin E]]. simpl in E. destruct (peqb_spec p k); [|discriminate].
+    subst. change k with (fst (k, v)). apply in_map. assumption.
+  - intros H. apply in_map_iff in H. destruct H as [[k v] [E Hin]]. simpl in E. subst k.
+    exists (p, v). split; [assumption|]. simpl. destruct (peqb_spec p p); congruence.
+Qed.
+
+Definition targets (names : list P) : list P := filter (fun p => negb (is_decoy p)) names.
+
+Lemma decoys_ok : forall all names dm hd ht,
+  NoDup (map fst names) -> (forall p, In p (map fst names) -> ~ In p (map fst dm)) ->
+  gr_decoys P peqb is_decoy decoy_of all names (dm, hd, ht) =
+  (dm ++ map (fun p => (p, decoy_of p)) (targets (map fst names)),
+   hd || existsb (fun p => gr_has_prot P peqb (decoy_of p) all) (targets (map fst names)),
+   ht || existsb (fun _ => true) (targets (map fst names))).
+Proof.
+  intros all names. induction names as [|[p w] r IH]; intros dm hd ht Hnd Hfresh.
+  - simpl. rewrite app_nil_r. rewrite !orb_false_r. reflexivity.
+  - simpl in Hnd. inversion Hnd as [|? ? Hp Hr]; subst.
+    simpl. unfold targets. simpl. destruct (is_decoy p) eqn:E; simpl.
+    + apply IH; [assumption|]. intros q Hq. apply Hfresh. right. assumption.
+    + rewrite pair_set_fresh by (apply Hfresh; left; reflexivity).
+      rewrite IH; [|assumption|].
+      * fold (targets (map fst r)). rewrite <- app_assoc. simpl.
+        f_equal; [f_equal|].
+        -- destruct (gr_has_prot P peqb (decoy_of p) all); destruct hd; reflexivity.
+        -- destruct ht; reflexivity.
+      * intros q Hq. rewrite map_app. rewrite in_app_iff. simpl. intros [H|[H|[]]].
+        -- apply (Hfresh q); [right; assumption|assumption].
+        -- subst q. contradiction.
+Qed.
+
+Lemma split_spec : forall (pm : gr_pmap P) u s, gr_split P pm = (u, s) ->
+  (forall pep n, In (pep, n) u <-> In (pep, [n]) pm) /\
+  (forall pep ns, In (pep, ns) s <-> In (pep, ns) pm /\ forall n, ns <> [n]) /\
+  Permutation (map fst pm) (map fst u ++ map fst s).
+Proof.
+  induction pm as [|[k names] r IH]; intros u s H; simpl in H.
+  - injection H as E1 E2. subst. split; [|split].
+    + intros pep n. tauto.
+    + intros pep ns. simpl. tauto.
+    + constructor.
+  - destruct (gr_split P r) as [u0 s0]. destruct (IH u0 s0 eq_refl) as [I1 [I2 I3]].
+    destruct names as [|n1 [|n2 l]]; injection H as E1 E2; subst u s.
+    + split; [|split].
+      * intros pep n. rewrite I1. simpl. split; [right; assumption|intros [H|H]; [discriminate|assumption]].
+      * intros pep ns. simpl. rewrite I2. split.
+        -- intros [H|[H1 H2]]; [injection H as E1 E2; subst; split; [left; reflexivity|discriminate]|].
+           split; [right; assumption|assumption].
+        -- intros [[H|H] H2]; [left; assumption|right; split; assumption].
+      * simpl. apply Permutation_cons_app. assumption.
+    + split; [|split].
+      * intros pep n. simpl. rewrite I1. split.
+        -- intros [H|H]; [left; congruence|right; assumption].
+        -- intros [H|H]; [left; congruence|right; assumption].
+      * intros pep ns. rewrite I2. simpl. split.
+        -- intros [H1 H2]. split; [right; assumption|assumption].
+        -- intros [[H|H] H2]; [injection H as E1 E2; subst; exfalso; apply (H2 n1); reflexivity|].
+           split; assumption.
+      * simpl. apply perm_skip. assumption.
+    + split; [|split].
+      * intros pep n. rewrite I1. simpl. split; [right; assumption|intros [H|H]; [discriminate|assumption]].
+      * intros pep ns. simpl. rewrite I2. split.
+        -- intros [H|[H1 H2]]; [injection H as E1 E2; subst; split; [left; reflexivity|discriminate]|].
+           split; [right; assumption|assumption].
+        -- intros [[H|H] H2]; [left; assumption|right; split; assumption].
+      * simpl. apply Permutation_cons_app. assumption.
+Qed.
+
+Lemma nodup_singleton : forall {A} (l : list A) a,
+  NoDup l -> In a l -> (forall x, In x l -> x = a) -> l = [a].
+Proof.
+  intros A l a Hnd Hin Hall. destruct l as [|x [|y r]].
+  - contradiction.
+  - f_equal. apply Hall. left. reflexivity.
+  - exfalso. inversion Hnd as [|? ? Hx _]; subst. apply Hx. left.
+    rewrite (Hall x) by (left; reflexivity). rewrite (Hall y) by (right; left; reflexivity). reflexivity.
+Qed.
+
+Definition in_group (g : gr_groups P) (n : list P) (pep : nat) : Prop :=
+  exists S, In (n, S) g /\ In pep S.
+
+Record fasta_spec (entries : list (P * list nat)) (out : gr_out P) : Prop := {
+  fs_groups : exists g, group_spec (clean entries) g /\
+    (forall pep n, In (pep, n) (gr_unique P out) <->
+       in_group g n pep /\ forall n', in_group g n' pep -> n' = n) /\
+    (forall pep ns, In (pep, ns) (gr_shared P out) ->
+       NoDup ns /\ 2 <= length ns /\ forall x, In x ns <-> in_group g x pep) /\
+    (forall pep n n', n <> n' -> in_group g n pep -> in_group g n' pep ->
+       In pep (map fst (gr_shared P out)));
+  fs_keys : NoDup (map fst (gr_unique P out) ++ map fst (gr_shared P out));
+  fs_pmap : forall t d, In (t, d) (gr_protein_map P out) <->
+              In t (map fst (clean entries)) /\ is_decoy t = false /\ d = decoy_of t;
+  fs_pmap_keys : NoDup (map fst (gr_protein_map P out));
+  fs_has_decoys : gr_has_decoys P out = true <->
+     exists t, In t (map fst (clean entries)) /\ is_decoy t = false /\
+               In (decoy_of t) (map fst (clean entries)) }.
+
+Theorem read_fasta_ok : forall pi entries,
+  perm_oracle pi -> NoDup (map fst entries) ->
+  (exists t, In t (map fst (clean entries)) /\ is_decoy t = false) ->
+  exists out, gr_read_fasta P peqb pi is_decoy decoy_of entries = Ok out /\ fasta_spec entries out.
+Proof.
+  intros pi entries Hpi Hnd [t0 [Ht0 Ht0d]].
+  assert (Hne : entries <> []) by (intros E; subst; destruct Ht0).
+  unfold gr_read_fasta. destruct entries as [|e0 es] eqn:Ee; [congruence|]. rewrite <- Ee in *. clear Ee e0 es Hne.
+  destruct (gr_build P peqb entries [] []) as [d0 pm0] eqn:Eb.
+  destruct (build_ok entries [] [] d0 pm0 Hnd) as [B1 [B2 [B3 [B4 B5]]]]; [intros p _ []|exact Eb|].
+  simpl in B1. subst d0.
+  set (d := gr_sort_asc P (clean entries)).
+  assert (Hperm : Permutation (clean entries) d) by apply sort_asc_perm.
+  assert (Hext : forall e, In e d <-> In e (clean entries)).
+  { intros e. split; intros H.
+    - apply (Permutation_in _ (Permutation_sym Hperm)). assumption.
+    - apply (Permutation_in _ Hperm). assumption. }
+  assert (Hextn : forall x, In x (map fst d) <-> In x (map fst (clean entries))).
+  { intros x. split; intros H.
+    - apply (Permutation_in _ (Permutation_sym (Permutation_map fst Hperm))). assumption.
+    - apply (Permutation_in _ (Permutation_map fst Hperm)). assumption. }
+  destruct (clean_wf entries Hnd) as [Wn Wp].
+  assert (Hdn : NoDup (map fst d)).
+  { eapply Permutation_NoDup; [apply Permutation_map; exact Hperm|assumption]. }
+  assert (Hwf : wf_prots d).
+  { split; [assumption|]. intros p peps Hin. apply (Wp p peps). apply Hext. assumption. }
+  rewrite (decoys_ok d d [] false false Hdn) by (intros p _ []).
+  simpl app. simpl orb.
+  set (tg := targets (map fst d)).
+  assert (Htg : forall x, In x tg <-> In x (map fst (clean entries)) /\ is_decoy x = false).
+  { intros x. unfold tg, targets. rewrite filter_In. rewrite Hextn.
+    destruct (is_decoy x); simpl; split; intros [H1 H2]; split; congruence. }
+  assert (Hht : existsb (fun _ : P => true) tg = true).
+  { apply existsb_exists. exists t0. split; [apply Htg; split; assumption|reflexivity]. }
+  rewrite Hht. simpl negb. cbv iota.
+  assert (Hpm0 : pm0_ok d pm0).
+  { split.
+    - intros pep x. rewrite (B2 pep x). simpl. split.
+      + intros [[]|[p [peps [H1 H2]]]]. exists p, peps. split; [apply Hext; assumption|assumption].
+      + intros [p [peps [H1 H2]]]. right. exists p, peps. split; [apply Hext; assumption|assumption].
+    - apply B3. intros pep. simpl. constructor. }
+  destruct (group_ok pi d pm0 Hpi Hwf Hpm0) as [g [pm [Hrun [Hgs Hps]]]].
+  rewrite Hrun.
+  assert (Hkeys : map fst pm = map fst pm0).
+  { unfold gr_group in Hrun. apply loop_keys in Hrun. exact Hrun. }
+  assert (Hknd : NoDup (map fst pm)) by (rewrite Hkeys; apply B4; constructor).
+  destruct (gr_split P pm) as [u s] eqn:Es.
+  destruct (split_spec pm u s Es) as [S1 [S2 S3]].
+  eexists. split; [reflexivity|].
+  assert (Hgs' : group_spec (clean entries) g) by (apply (group_spec_ext d); assumption).
+  assert (Hlk : forall pep x, In x (lookup pep pm) <-> in_group g x pep).
+  { intros pep x. apply (proj2 (Hps pep) x). }
+  (* a key of the dict is a peptide of some protein, hence lies in some group *)
+  assert (Hkey_group : forall pep, In pep (map fst pm) -> exists n, in_group g n pep).
+  { intros pep Hk. rewrite Hkeys in Hk. apply B5 in Hk. simpl in Hk.
+    destruct Hk as [[]|[p [peps [Hp Hpep]]]].
+    destruct (gs_cover _ _ Hgs' p peps Hp) as [n [S [Hin Hpn]]].
+    exists n, S. split; [assumption|].
+    apply (proj1 (gs_members _ _ Hgs' n S Hin p)) in Hpn. destruct Hpn as [peps' [Hp' Hsub]].
+    assert (E : (p, peps') = (p, peps)) by (eapply nodup_map_inj; [exact Wn|assumption|assumption|reflexivity]).
+    injection E as E. subst peps'. apply Hsub. assumption. }
+  constructor; simpl.
+  - exists g. split; [assumption|]. split; [|split].
+    + intros pep n. rewrite S1. rewrite (lookup_in_pm pm pep [n] Hknd). split.
+      * intros [Hk Hl]. split.
+        -- apply Hlk. rewrite Hl. left. reflexivity.
+        -- intros n' Hn'. apply Hlk in Hn'. rewrite Hl in Hn'. destruct Hn' as [H|[]]. congruence.
+      * intros [Hn Hall]. apply Hlk in Hn. split; [eapply lookup_in_key; exact Hn|].
+        apply nodup_singleton; [apply (proj1 (Hps pep))|assumption|].
+        intros x Hx. apply Hall. apply Hlk. assumption.
+    + intros pep ns Hin. apply S2 in Hin. destruct Hin as [Hin Hns].
+      apply (lookup_in_pm pm pep ns Hknd) in Hin. destruct Hin as [Hk Hl]. subst ns.
+      split; [apply (proj1 (Hps pep))|]. split; [|apply Hlk].
+      destruct (Hkey_group pep Hk) as [n Hn]. apply Hlk in Hn.
+      destruct (lookup pep pm) as [|a [|b l]]; simpl.
+      * destruct Hn.
+      * exfalso. apply (Hns a). reflexivity.
+      * lia.
+    + intros pep n n' Hnn Hn Hn'. apply Hlk in Hn. apply Hlk in Hn'.
+      apply in_map_iff. exists (pep, lookup pep pm). split; [reflexivity|].
+      apply S2. split.
+      * apply (lookup_in_pm pm pep _ Hknd). split; [eapply lookup_in_key; exact Hn|reflexivity].
+      * intros a E. rewrite E in Hn, Hn'. destruct Hn as [Hn|[]]. destruct Hn' as [Hn'|[]]. congruence.
+  - eapply Permutation_NoDup; [exact S3|exact Hknd].
+  - intros t d'. rewrite in_map_iff. split.
+    + intros [x [E Hx]]. injection E as E1 E2. subst x d'. apply Htg in Hx. tauto.
+    + intros [H1 [H2 H3]]. exists t. split; [congruence|apply Htg; split; assumption].
+  - rewrite map_map. simpl. rewrite map_id. unfold tg, targets. apply NoDup_filter. assumption.
+  - rewrite existsb_exists. split.
+    + intros [x [Hx Hh]]. apply Htg in Hx. apply has_prot_spec in Hh. apply Hextn in Hh.
+      exists x. tauto.
+    + intros [x [H1 [H2 H3]]]. exists x. split; [apply Htg; split; assumption|].
+      apply has_prot_spec. apply Hextn. assumption.
+Qed.
+
+(* the two error exits *)
+Lemma read_fasta_empty : forall pi, gr_read_fasta P peqb pi is_decoy decoy_of [] = Err EIndex.
+Proof. reflexivity. Qed.
+
+Lemma read_fasta_only_decoys : forall pi entries,
+  entries <> [] -> NoDup (map fst entries) ->
+  (forall t, In t (map fst (clean entries)) -> is_decoy t = true) ->
+  gr_read_fasta P peqb pi is_decoy decoy_of entries = Err EValue.
+Proof.
+  intros pi entries Hne Hnd Hall.
+  unfold gr_read_fasta. destruct entries as [|e0 es] eqn:Ee; [congruence|]. rewrite <- Ee in *. clear Ee e0 es Hne.
+  destruct (gr_build P peqb entries [] []) as [d0 pm0] eqn:Eb.
+  destruct (build_ok entries [] [] d0 pm0 Hnd) as [B1 _]; [intros p _ []|exact Eb|].
+  simpl in B1. subst d0.
+  set (d := gr_sort_asc P (clean entries)).
+  assert (Hperm : Permutation (clean entries) d) by apply sort_asc_perm.
+  destruct (clean_wf entries Hnd) as [Wn _].
+  assert (Hdn : NoDup (map fst d)).
+  { eapply Permutation_NoDup; [apply Permutation_map; exact Hperm|assumption]. }
+  rewrite (decoys_ok d d [] false false Hdn) by (intros p _ []).
+  assert (Htg : targets (map fst d) = []).
+  { unfold targets. destruct (filter (fun p => negb (is_decoy p)) (map fst d)) as [|x l] eqn:E; [reflexivity|].
+    assert (Hx : In x (filter (fun p => negb (is_decoy p)) (map fst d))) by (rewrite E; left; reflexivity).
+    apply filter_In in Hx. destruct Hx as [Hx1 Hx2].
+    apply (Permutation_in _ (Permutation_sym (Permutation_map fst Hperm))) in Hx1.
+    rewrite (Hall x Hx1) in Hx2. discriminate. }
+  rewrite Htg. reflexivity.
+Qed.
+
+End Fasta.
+
 End GroupingProofs.
